@@ -260,7 +260,7 @@ def drive(rec, seed=0, tier="quick"):
             forces, _fc_model = spring_forces(ph.supercell, np.array(dsets))
             ph.forces = forces
             ph.produce_force_constants(calculate_full_force_constants=not compact, show_drift=False)
-            ph.symmetrize_force_constants(level=1 + (seed % 2), show_drift=False)
+            ph.symmetrize_force_constants(level=1 + ((seed + len(notes)) % 2), show_drift=False)
             if compact:
                 show_drift_force_constants(ph.force_constants, primitive=ph.primitive, values_only=True)
             if nacm:
@@ -272,6 +272,21 @@ def drive(rec, seed=0, tier="quick"):
                            nac_q_direction=[1, 0, 0] if nacm else None)
             ph.run_mesh([3, 3, 2], with_eigenvectors=True, is_mesh_symmetry=True)
             ph.run_thermal_properties(t_min=0, t_max=600, t_step=150)
+            if len(notes) % 2 == 0:
+                # classical statistics (the kernel's `classical` flag)
+                ph.run_thermal_properties(t_min=0, t_max=600, t_step=150, classical=True)
+            # the kernels' own use_openmp flag OFF and ON, with and without NAC / q-direction
+            from phonopy.harmonic.derivative_dynmat import DerivativeOfDynamicalMatrix
+            from phonopy.harmonic.dynamical_matrix import get_dynamical_matrix
+
+            for omp_flag in (False, True):
+                dmx = get_dynamical_matrix(ph.force_constants, ph.supercell, ph.primitive,
+                                           nac_params=(dict(c["nac"], method=nacm) if nacm else None),
+                                           use_openmp=omp_flag)
+                ddm = DerivativeOfDynamicalMatrix(dmx)
+                ddm.run(np.array([0.11, 0.23, -0.37]))
+                if nacm:
+                    ddm.run(np.array([0.0, 0.0, 0.0]), q_direction=np.array([1.0, 0.5, 0.0]))
             ph.run_total_dos(use_tetrahedron_method=True, freq_pitch=(2.0 + rng.random()))
             if nacm == "gonze":
                 # Gonze-Lee dipole-dipole kernels with their own use_openmp flag ON, at the points where
@@ -280,15 +295,18 @@ def drive(rec, seed=0, tier="quick"):
                 from phonopy.harmonic.dynamical_matrix import DynamicalMatrixGL
 
                 nac = dict(c["nac"])
-                for full_terms in (False, True):
+                for full_terms, omp_flag in ((False, True), (True, True), (True, False)):
                     gl = DynamicalMatrixGL(ph.supercell, ph.primitive, ph.force_constants, nac_params=nac,
-                                           with_full_terms=full_terms, use_openmp=True)
+                                           with_full_terms=full_terms, use_openmp=omp_flag)
+                    tag0 = tag
+                    tag = tag0 + ("" if omp_flag else "|noomp")
                     rec.tag = "%s|GL%s setup" % (tag, "full" if full_terms else "")
                     gl.make_Gonze_nac_dataset()
                     for label, q, qd in (("q0", [0.0, 0, 0], [1.0, 0, 0]), ("qG", [1.0, 0, 0], [0.0, 1, 0.5]),
                                          ("qG2", [0.0, -1, 1], [1.0, 1, 0]), ("qgen", [0.13, 0.27, -0.31], None)):
                         rec.tag = "%s|GL%s %s" % (tag, "full" if full_terms else "", label)
                         gl.run(np.array(q), q_direction=None if qd is None else np.array(qd))
+                    tag = tag0
                 rec.tag = tag
             if nacm is None:
                 ph.run_mesh([2, 2, 2], with_eigenvectors=True, is_mesh_symmetry=False)
@@ -499,6 +517,21 @@ def select_cases(calls, rng, per_kernel=6, per_kernel_random=3):
             for t in list(tags):
                 if tags[t]:
                     order.append(tags[t].pop(0))
+        # every class of the coverage requirements of KernelRuns.tla (non-contiguous images, non-prefix
+        # p2s map, vanishing K with direction, flag values) gets its share: round-robin over the classes
+        def klass(c):
+            f = index_map_facts(c)
+            return (f["gllimit"], f["noncontig"], f["p2sprefix"],
+                    tuple(scalar_sig(x) for x in c["args"] if not isinstance(x, np.ndarray) and scalar_sig(x) != "f"))
+
+        byc = {}
+        for c in order:
+            byc.setdefault(klass(c), []).append(c)
+        order = []
+        while any(byc.values()):
+            for kk in list(byc):
+                if byc[kk]:
+                    order.append(byc[kk].pop(0))
         chosen = order[:per_kernel]
         for c in chosen:
             c = dict(c)
